@@ -1,0 +1,24 @@
+//! Hooks for external runtime monitors. Compiled only with the `verif-hooks`
+//! feature; nothing in the crate reads these values.
+
+use std::cell::Cell;
+
+thread_local! {
+    static WORK: Cell<u64> = const { Cell::new(0) };
+}
+
+/// Count one unit of request-checking work on the current thread.
+#[inline]
+pub fn tick() {
+    WORK.with(|w| w.set(w.get().wrapping_add(1)));
+}
+
+/// Reset the current thread's work counter.
+pub fn reset() {
+    WORK.with(|w| w.set(0));
+}
+
+/// Read the current thread's work counter.
+pub fn read() -> u64 {
+    WORK.with(|w| w.get())
+}
